@@ -363,7 +363,7 @@ func c5PreChecks(c *Ctx) {
 				if !ok || fieldName(fa.X.Type(), fa.Field) != tf[1] {
 					return
 				}
-				if nn, _ := deref(fa.X.Type()).(*types.Named); nn == nil || nn.Obj() != named.Obj() {
+				if nn, _ := types.Unalias(deref(fa.X.Type())).(*types.Named); nn == nil || nn.Obj() != named.Obj() {
 					return
 				}
 				n++
@@ -659,4 +659,10 @@ func c5Atomic(c *Ctx) {
 	if n != 1 {
 		c.Bad("R5.6", sl.String(), "atomic-store", sl.Pos(), "expected one atomic Store, found %d", n)
 	}
+}
+
+// ConstObjInt returns the integer value of a constant object.
+func ConstObjInt(o *types.Const) (int64, bool) {
+	v, exact := constant.Int64Val(constant.ToInt(o.Val()))
+	return v, exact
 }
